@@ -1,0 +1,517 @@
+//go:build verif
+
+package cache
+
+import (
+	"context"
+	"encoding/json"
+	"errors"
+	"fmt"
+	"math/rand"
+	"reflect"
+	"sort"
+	"strings"
+	"sync"
+	"testing"
+	"time"
+	"unsafe"
+
+	"github.com/alicebob/miniredis/v2"
+	"github.com/alicebob/miniredis/v2/server"
+	"github.com/gotid/god/internal/verifdrv"
+	"github.com/gotid/god/lib/collection"
+	"github.com/gotid/god/lib/hash"
+	"github.com/gotid/god/lib/logx"
+	"github.com/gotid/god/lib/mathx"
+	"github.com/gotid/god/lib/store/redis"
+	"github.com/gotid/god/lib/syncx"
+	"github.com/gotid/god/lib/threading"
+	"github.com/gotid/god/lib/timex"
+)
+
+// ---- case format (shared with lib/store/sqlc/verif_driver_test.go) ----
+
+type verifOp struct {
+	Op   string  `json:"op"` // qrow | exec | del | set | adv | fault | corrupt
+	ID   int     `json:"id"`
+	U    []int64 `json:"u"`    // jitter draws, u = U[i]/1024
+	W    []any   `json:"w"`    // ["put",id,ix,val] | ["del",id] | ["fail"]
+	Keys [][]any `json:"keys"` // [["pk",1],["ix",0]]
+	Key  []any   `json:"key"`
+	Val  []any   `json:"val"` // ["row",id,ix,val] | ["pk",id]
+	Dt   int     `json:"dt"`
+	Node int     `json:"node"` // fault: -1 = every node
+	G    bool    `json:"g"`
+	S    bool    `json:"s"`
+	D    bool    `json:"d"`
+	Gi   int     `json:"gi"`
+	TTL  int     `json:"ttl"`
+}
+
+type verifCase struct {
+	Level    string    `json:"level"` // node | cluster
+	Expire   int       `json:"expire"`
+	NfExpire int       `json:"nfexpire"`
+	NNodes   int       `json:"nnodes"`
+	Ops      []verifOp `json:"ops"`
+}
+
+type verifRow struct {
+	ID  int `json:"id"`
+	Ix  int `json:"ix"`
+	Val int `json:"val"`
+}
+
+const (
+	verifNPK     = 4
+	verifNIX     = 3
+	verifFaultMsg = "VERIFFAULT injected"
+)
+
+var errVerifNotFound = errors.New("verif: not found")
+
+// scripted rand.Source: Float64() of a rand.Rand over it yields U[i]/1024
+type verifSource struct {
+	vals []int64
+	i    int
+}
+
+func (s *verifSource) Int63() int64 {
+	v := int64(512)
+	if len(s.vals) > 0 {
+		if s.i < len(s.vals) {
+			v = s.vals[s.i]
+			s.i++
+		} else {
+			v = s.vals[len(s.vals)-1]
+		}
+	}
+	return v << 53 // Float64() = float64(Int63()) / 2^63
+}
+func (s *verifSource) Seed(int64) {}
+
+// one miniredis with switchable per-command faults
+type verifRedis struct {
+	s    *miniredis.Miniredis
+	mu   sync.Mutex
+	g, w, d bool
+}
+
+func newVerifRedis() *verifRedis {
+	s, err := miniredis.Run()
+	if err != nil {
+		panic(err)
+	}
+	r := &verifRedis{s: s}
+	s.Server().SetPreHook(func(c *server.Peer, cmd string, args ...string) bool {
+		r.mu.Lock()
+		g, w, d := r.g, r.w, r.d
+		r.mu.Unlock()
+		switch strings.ToUpper(cmd) {
+		case "GET":
+			if g {
+				c.WriteError(verifFaultMsg)
+				return true
+			}
+		case "SET", "SETEX":
+			if w {
+				c.WriteError(verifFaultMsg)
+				return true
+			}
+		case "DEL":
+			if d {
+				c.WriteError(verifFaultMsg)
+				return true
+			}
+		}
+		return false
+	})
+	return r
+}
+
+func (r *verifRedis) setFaults(g, w, d bool) {
+	r.mu.Lock()
+	r.g, r.w, r.d = g, w, d
+	r.mu.Unlock()
+}
+
+var (
+	verifOnce   sync.Once
+	verifServers []*verifRedis
+	verifStat   *Stat
+	verifCaseNo int
+)
+
+func verifSetup() {
+	logx.Disable()
+	timex.VerifSetNow(time.Hour)
+	// the cleaner's own wheel (real 1 s ticker) is replaced by a frozen one; the driver plays the timer
+	timingWheel.Stop()
+	verifFreshWheel()
+	taskRunner = threading.NewTaskRunner(1)
+	for i := 0; i < 3; i++ {
+		verifServers = append(verifServers, newVerifRedis())
+	}
+	verifStat = NewStat("verif")
+}
+
+func verifFreshWheel() {
+	tw, err := collection.NewTimingWheel(time.Hour, timingWheelSlots, clean)
+	if err != nil {
+		panic(err)
+	}
+	timingWheel = tw
+}
+
+// number of timers the wheel holds (unexported field collection.TimingWheel.timers)
+func verifWheelSize(tw *collection.TimingWheel) int {
+	f := reflect.ValueOf(tw).Elem().FieldByName("timers")
+	sm := *(**collection.SafeMap)(unsafe.Pointer(f.UnsafeAddr()))
+	return sm.Size()
+}
+
+type verifArmed struct {
+	key any
+	dt  delayTask
+}
+
+// verifCollect waits until the cleaner is idle and takes every timer out of the (frozen) wheel.
+func verifCollect() []verifArmed {
+	taskRunner.Schedule(func() {})     // barrier: the previous clean() body has returned
+	timingWheel.RemoveTimer("verif-barrier") // barrier: the wheel loop has handled every SetTimer before
+	n := verifWheelSize(timingWheel)
+	if n == 0 {
+		return nil
+	}
+	var mu sync.Mutex
+	var out []verifArmed
+	var wg sync.WaitGroup
+	wg.Add(n)
+	timingWheel.Drain(func(key, value any) {
+		mu.Lock()
+		out = append(out, verifArmed{key: key, dt: value.(delayTask)})
+		mu.Unlock()
+		wg.Done()
+	})
+	wg.Wait()
+	timingWheel.Stop()
+	verifFreshWheel()
+	return out
+}
+
+type verifTask struct {
+	key   any
+	dt    delayTask
+	node  int
+	id    int
+	due   int
+}
+
+type verifRun struct {
+	prefix  string
+	cache   Cache
+	nodes   []node
+	srcs    []*verifSource
+	nn      int
+	disp    *hash.ConsistentHash
+	db      map[int]verifRow
+	dbq     int
+	tick    int
+	pending []*verifTask
+	byKey   map[any]*verifTask
+	nextID  []int
+	logs    [][]any
+}
+
+func (r *verifRun) keyName(k []any) string {
+	return fmt.Sprintf("%s%s:%d", r.prefix, k[0].(string), int(k[1].(float64)))
+}
+
+func (r *verifRun) universe() []string {
+	var ks []string
+	for i := 0; i < verifNPK; i++ {
+		ks = append(ks, fmt.Sprintf("%spk:%d", r.prefix, i))
+	}
+	for i := 0; i < verifNIX; i++ {
+		ks = append(ks, fmt.Sprintf("%six:%d", r.prefix, i))
+	}
+	return ks
+}
+
+func (r *verifRun) parseKey(s string) []any {
+	rest := strings.TrimPrefix(s, r.prefix)
+	parts := strings.SplitN(rest, ":", 2)
+	var n int
+	fmt.Sscanf(parts[1], "%d", &n)
+	return []any{parts[0], n}
+}
+
+func (r *verifRun) place(key string) int {
+	if r.disp == nil {
+		return 0
+	}
+	v, ok := r.disp.Get(key)
+	if !ok {
+		return -1
+	}
+	addr := v.(node).rds.Addr
+	for i := 0; i < r.nn; i++ {
+		if verifServers[i].s.Addr() == addr {
+			return i
+		}
+	}
+	return -1
+}
+
+// register what the last operation armed in the wheel
+func (r *verifRun) absorb() {
+	got := verifCollect()
+	sort.Slice(got, func(i, j int) bool {
+		return r.place(got[i].dt.keys[0]) < r.place(got[j].dt.keys[0])
+	})
+	for _, a := range got {
+		a := a
+		if t, ok := r.byKey[a.key]; ok {
+			// re-armed by clean: same timer key, next delay
+			t.dt = a.dt
+			t.due = r.tick + int(a.dt.delay/time.Second)
+			r.pending = append(r.pending, t)
+			continue
+		}
+		nd := r.place(a.dt.keys[0])
+		t := &verifTask{key: a.key, node: nd, id: r.nextID[nd]}
+		r.nextID[nd]++
+		orig := a.dt.task
+		t.dt = delayTask{delay: a.dt.delay, keys: a.dt.keys, task: func() error {
+			err := orig()
+			r.logs[t.node] = append(r.logs[t.node], []any{"try", t.id, r.tick, err == nil})
+			return err
+		}}
+		t.due = r.tick + int(a.dt.delay/time.Second)
+		r.byKey[a.key] = t
+		r.pending = append(r.pending, t)
+		var ks []any
+		for _, k := range a.dt.keys {
+			ks = append(ks, r.parseKey(k))
+		}
+		r.logs[nd] = append(r.logs[nd], []any{"arm", t.id, r.tick, ks})
+	}
+}
+
+func (r *verifRun) flushBreaker() { timex.VerifAdvance(11 * time.Second) }
+
+// one tick of the abstract timer: due tasks are handed to clean, in order
+func (r *verifRun) fireDue() {
+	var due, rest []*verifTask
+	for _, t := range r.pending {
+		if t.due <= r.tick {
+			due = append(due, t)
+		} else {
+			rest = append(rest, t)
+		}
+	}
+	r.pending = rest
+	for _, t := range due {
+		r.flushBreaker()
+		clean(t.key, t.dt)
+		r.absorb()
+	}
+}
+
+func (r *verifRun) advance(dt int) {
+	for dt > 0 {
+		step := dt
+		if len(r.pending) > 0 {
+			next := r.pending[0].due
+			for _, t := range r.pending {
+				if t.due < next {
+					next = t.due
+				}
+			}
+			if d := next - r.tick; d < step {
+				step = d
+			}
+			if step < 1 {
+				step = 1
+			}
+		}
+		for i := 0; i < r.nn; i++ {
+			verifServers[i].s.FastForward(time.Duration(step) * time.Second)
+		}
+		r.tick += step
+		dt -= step
+		r.fireDue()
+	}
+}
+
+func verifErr(err error) string {
+	switch {
+	case err == nil:
+		return "ok"
+	case err == errVerifNotFound:
+		return "nf"
+	case strings.Contains(err.Error(), verifFaultMsg):
+		return "cerr"
+	default:
+		return "err:" + err.Error()
+	}
+}
+
+func (r *verifRun) dump() [][]any {
+	out := [][]any{}
+	for i := 0; i < r.nn; i++ {
+		s := verifServers[i].s
+		for ki, k := range r.universe() {
+			if !s.Exists(k) {
+				continue
+			}
+			v, _ := s.Get(k)
+			out = append(out, []any{i, ki, v, int(s.TTL(k) / time.Second)})
+		}
+	}
+	return out
+}
+
+func verifRunCase(c verifCase) any {
+	verifOnce.Do(verifSetup)
+	verifCaseNo++
+	r := &verifRun{prefix: fmt.Sprintf("c%d:", verifCaseNo), db: map[int]verifRow{}, byKey: map[any]*verifTask{}}
+	r.nn = 1
+	if c.Level == "cluster" {
+		r.nn = c.NNodes
+	}
+	if r.nn < 1 || r.nn > len(verifServers) {
+		return map[string]any{"error": "nnodes"}
+	}
+	r.nextID = make([]int, r.nn)
+	r.logs = make([][]any, r.nn)
+	barrier := syncx.NewSingleFlight()
+	for i := 0; i < r.nn; i++ {
+		verifServers[i].s.FlushAll()
+		verifServers[i].setFaults(false, false, false)
+		src := &verifSource{}
+		r.srcs = append(r.srcs, src)
+		r.nodes = append(r.nodes, node{
+			rds:            redis.New(verifServers[i].s.Addr()),
+			expire:         time.Duration(c.Expire) * time.Second,
+			notFoundExpire: time.Duration(c.NfExpire) * time.Second,
+			barrier:        barrier,
+			r:              rand.New(rand.NewSource(1)),
+			lock:           new(sync.Mutex),
+			unstableExpire: mathx.VerifNewUnstable(expireDeviation, src),
+			stat:           verifStat,
+			errNotFound:    errVerifNotFound,
+		})
+		r.logs[i] = []any{}
+	}
+	if c.Level == "cluster" {
+		r.disp = hash.NewConsistentHash()
+		for _, n := range r.nodes {
+			r.disp.AddWithWeight(n, 100)
+		}
+		r.cache = cluster{dispatcher: r.disp, errNotFound: errVerifNotFound}
+	} else {
+		r.cache = r.nodes[0]
+	}
+	ctx := context.Background()
+	var obs []any
+	for _, op := range c.Ops {
+		r.flushBreaker()
+		for _, s := range r.srcs {
+			s.vals, s.i = op.U, 0
+		}
+		o := map[string]any{}
+		switch op.Op {
+		case "qrow":
+			var row verifRow
+			err := r.cache.TakeCtx(ctx, &row, r.keyName([]any{"pk", float64(op.ID)}), func(v any) error {
+				r.dbq++
+				got, ok := r.db[op.ID]
+				if !ok {
+					return errVerifNotFound
+				}
+				*v.(*verifRow) = got
+				return nil
+			})
+			o["r"] = verifErr(err)
+			if err == nil {
+				o["r"] = "row"
+				o["row"] = []int{row.ID, row.Ix, row.Val}
+			}
+		case "exec", "del":
+			// CachedConn.ExecCtx = the write, then DelCtx(keys...); replayed here at cache level
+			okw := true
+			if op.Op == "exec" {
+				switch op.W[0].(string) {
+				case "put":
+					id := int(op.W[1].(float64))
+					r.db[id] = verifRow{ID: id, Ix: int(op.W[2].(float64)), Val: int(op.W[3].(float64))}
+				case "del":
+					delete(r.db, int(op.W[1].(float64)))
+				default:
+					okw = false
+				}
+			}
+			if !okw {
+				o["r"] = "execerr"
+				break
+			}
+			var ks []string
+			for _, k := range op.Keys {
+				ks = append(ks, r.keyName(k))
+			}
+			o["r"] = verifErr(r.cache.DelCtx(ctx, ks...))
+			r.absorb()
+		case "set":
+			var val any
+			if op.Val[0].(string) == "row" {
+				val = verifRow{ID: int(op.Val[1].(float64)), Ix: int(op.Val[2].(float64)), Val: int(op.Val[3].(float64))}
+			} else {
+				val = int(op.Val[1].(float64))
+			}
+			o["r"] = verifErr(r.cache.SetCtx(ctx, r.keyName(op.Key), val))
+		case "adv":
+			r.advance(op.Dt)
+			o["r"] = "ok"
+		case "fault":
+			for i := 0; i < r.nn; i++ {
+				if op.Node < 0 || op.Node == i {
+					verifServers[i].setFaults(op.G, op.S, op.D)
+				}
+			}
+			o["r"] = "ok"
+		case "corrupt":
+			k := r.keyName(op.Key)
+			if nd := r.place(k); nd >= 0 {
+				s := verifServers[nd].s
+				s.Set(k, fmt.Sprintf("not-json-%d", op.Gi))
+				s.SetTTL(k, time.Duration(op.TTL)*time.Second)
+			}
+			o["r"] = "ok"
+		default:
+			o["r"] = "err:unknown op"
+		}
+		o["q"] = r.dbq
+		o["dump"] = r.dump()
+		obs = append(obs, o)
+	}
+	place := []int{}
+	for _, k := range r.universe() {
+		place = append(place, r.place(k))
+	}
+	// tasks still waiting are dropped with the case
+	r.pending = nil
+	return map[string]any{"ops": obs, "place": place, "logs": r.logs, "tick": r.tick}
+}
+
+// TestVerifDriver drives cache nodes / a 3-node cluster over miniredis with scripted jitter, faults
+// injected per Redis command, and the cleaner's timer played tick by tick by the driver.
+func TestVerifDriver(t *testing.T) {
+	verifdrv.Run(t, func(raw json.RawMessage) any {
+		var c verifCase
+		if err := json.Unmarshal(raw, &c); err != nil {
+			return map[string]any{"error": err.Error()}
+		}
+		return verifRunCase(c)
+	})
+}
